@@ -124,18 +124,19 @@ theorem validate_simple_err {b : FBpb} {e : Err} :
   · unfold validateSectorsPerFat at h; repeat' split at h
     all_goals cases h <;> rfl
 
-/-- a panic inside `validate` comes from one of three computations, after the sector size was accepted -/
-theorem validateBpb_panic {b : FBpb} (h : validateBpb b = .error .panic) :
-    (512 ≤ b.bps ∧ b.bps ≤ 4096) ∧
-    (b.firstDataSector = .error .panic ∨ b.totalClusters = .error .panic ∨
-      ∃ cl, b.totalClusters = .ok cl ∧ usableFatEntries b (FatType.fromClusters cl) = .error .panic) := by
+theorem isPow2_zero : isPow2 0 = false := by decide +kernel
+
+/-- `validate` (as repaired: region sum checked in 64 bits first, FAT capacity in 64 bits) never panics,
+    on any BPB whatsoever -/
+theorem validateBpb_not_panic (b : FBpb) : validateBpb b ≠ .error .panic := by
+  intro h
   unfold validateBpb at h
   split at h
   · cases h
   · have hs := @validate_simple_err b .panic
-    rcases bind_err_iff.mp h with h | ⟨_, h1, h⟩
-    · exact absurd (hs.1 h) (by decide)
     rcases bind_err_iff.mp h with h | ⟨_, _, h⟩
+    · exact absurd (hs.1 h) (by decide)
+    rcases bind_err_iff.mp h with h | ⟨_, h2, h⟩
     · exact absurd (hs.2.1 h) (by decide)
     rcases bind_err_iff.mp h with h | ⟨_, _, h⟩
     · exact absurd (hs.2.2.1 h) (by decide)
@@ -143,29 +144,42 @@ theorem validateBpb_panic {b : FBpb} (h : validateBpb b = .error .panic) :
     · exact absurd (hs.2.2.2.1 h) (by decide)
     rcases bind_err_iff.mp h with h | ⟨_, _, h⟩
     · exact absurd (hs.2.2.2.2.1 h) (by decide)
-    have hbps : 512 ≤ b.bps ∧ b.bps ≤ 4096 := by
-      unfold validateBytesPerSector at h1
-      repeat' split at h1
-      all_goals first | cases h1 | skip
-      omega
-    refine ⟨hbps, ?_⟩
-    rcases bind_err_iff.mp h with h | ⟨_, _, h⟩
+    have hspc : b.spc ≠ 0 := by
+      unfold validateSectorsPerCluster at h2
+      split at h2
+      · cases h2
+      · rename_i hp
+        intro hz; rw [hz, isPow2_zero] at hp; simp at hp
+    -- the region sum fits u32, so `first_data_sector` is that sum
+    have hfds : ∀ (hg : ¬ 4294967295 < b.reserved + b.fats * b.sectorsPerFat + b.rootDirSectors),
+        b.firstDataSector = .ok (b.reserved + b.fats * b.sectorsPerFat + b.rootDirSectors) := by
+      intro hg
+      unfold FBpb.firstDataSector
+      rw [chkMul32_of_lt (by omega), ok_bind, chkAdd32_of_lt (by omega), ok_bind, chkAdd32_of_lt (by omega)]
+    rcases bind_err_iff.mp h with h | ⟨_, h6, h⟩
     · unfold validateTotalSectors at h
       repeat' split at h
       all_goals first | cases h | skip
-      rcases bind_err_iff.mp h with h | ⟨_, _, h⟩
-      · exact Or.inl h
-      · split at h <;> cases h
+      rename_i hg
+      rw [hfds hg, ok_bind] at h
+      split at h <;> cases h
     rcases bind_err_iff.mp h with h | ⟨_, _, h⟩
     · exact absurd (hs.2.2.2.2.2 h) (by decide)
-    unfold validateTotalClusters at h
-    rcases bind_err_iff.mp h with h | ⟨cl, hcl, h⟩
-    · exact Or.inr (Or.inl h)
-    · repeat' split at h
-      all_goals first | cases h | skip
-      rcases bind_err_iff.mp h with h | ⟨_, _, h⟩
-      · exact Or.inr (Or.inr ⟨cl, hcl, h⟩)
-      · cases h
+    -- validate_total_sectors succeeded: the sum fits and is below the total
+    have h6' : ¬ 4294967295 < b.reserved + b.fats * b.sectorsPerFat + b.rootDirSectors ∧
+        ¬ b.totalSectors ≤ b.reserved + b.fats * b.sectorsPerFat + b.rootDirSectors := by
+      unfold validateTotalSectors at h6
+      repeat' split at h6
+      all_goals first | cases h6 | skip
+      rename_i hg
+      rw [hfds hg, ok_bind] at h6
+      split at h6
+      · cases h6
+      · exact ⟨hg, ‹_›⟩
+    unfold validateTotalClusters FBpb.totalClusters at h
+    rw [hfds h6'.1, ok_bind, chkSub_of_le (by omega), ok_bind, chkDiv_of_ne hspc, ok_bind] at h
+    repeat' split at h
+    all_goals cases h
 
 /-! ### layouts -/
 
@@ -217,26 +231,8 @@ theorem tryFsLayout_not_panic {t bps spc rds fats : Nat} {ft : FatType}
     rw [if_pos (h hns)]
     exact checkClusters_not_panic
 
-/-- F11: the cluster size given is smaller than the sector size -/
-def BpcLtBps (o : FormatOpts) : Prop := ∃ c, o.bpc = some c ∧ c < o.bps
-
-/-- the FAT-capacity computation `sectors_per_fat * bytes_per_sector * 8` of `validate_total_clusters`
-    overflows `u32` (FAT32 volumes with ≥ 2^27 FAT entries) -/
-def FatBitsOverflow (o : FormatOpts) (t : Nat) : Prop :=
-  o.bps ≤ 4096 ∧ ∃ L, determineFsLayout o t = .ok L ∧ L.fatType = .fat32 ∧ 4294967296 ≤ L.spf * o.bps * 8
-
-theorem effectiveBpc_ge {o : FormatOpts} {t c : Nat} (hn : ¬ BpcLtBps o) (h : effectiveBpc o t = .ok c) :
-    o.bps ≤ c := by
-  unfold effectiveBpc at h
-  split at h
-  · rename_i c' hc'
-    cases h
-    apply Nat.le_of_not_lt; intro hlt
-    exact hn ⟨c, hc', hlt⟩
-  · exact (determineBytesPerCluster_ok h).2.1
-
-theorem determineFsLayout_not_panic {o : FormatOpts} {t : Nat} (hacc : Accepted o) (ht : t < 4294967296)
-    (hn : ¬ BpcLtBps o) : determineFsLayout o t ≠ .error .panic := by
+theorem determineFsLayout_not_panic {o : FormatOpts} {t : Nat} (hacc : Accepted o) (ht : t < 4294967296) :
+    determineFsLayout o t ≠ .error .panic := by
   intro h
   unfold determineFsLayout at h
   obtain ⟨c, hc⟩ := effectiveBpc_total hacc t ht
@@ -246,16 +242,15 @@ theorem determineFsLayout_not_panic {o : FormatOpts} {t : Nat} (hacc : Accepted 
   rw [hc, ok_bind, chkDiv_of_ne hb0, ok_bind] at h
   split at h
   · cases h
-  · rename_i h255
-    rcases tryTypes_err h with h | ⟨_, ft, _, h⟩
+  · rename_i hpos
+    split at h
     · cases h
-    · have hge := effectiveBpc_ge hn hc
-      have hpos : c / o.bps ≠ 0 := by
-        have : 0 < c / o.bps := Nat.div_pos hge (by omega)
-        omega
-      have hspc := (effectiveBpc_facts hacc hc hpos).2 (by omega)
-      exact tryFsLayout_not_panic (fun hns => layout_arith_ok t o.bps (c / o.bps) _ o.fats ft ht
-        (rds_le _ _ _ hacc.root hacc.bps) hacc.bps hspc hacc.fats hns) h
+    · rename_i h255
+      rcases tryTypes_err h with h | ⟨_, ft, _, h⟩
+      · cases h
+      · have hspc := (effectiveBpc_facts hacc hc hpos).2 (by omega)
+        exact tryFsLayout_not_panic (fun hns => layout_arith_ok t o.bps (c / o.bps) _ o.fats ft ht
+          (rds_le _ _ _ hacc.root hacc.bps) hacc.bps hspc hacc.fats hns) h
 
 /-- `format_bpb` on a layout: the final cluster-count computation succeeds -/
 theorem layout_bpb_totalClusters {o : FormatOpts} {t : Nat} {L : FsLayout} {s16 : Nat}
@@ -288,12 +283,12 @@ theorem layout_bpb_totalClusters {o : FormatOpts} {t : Nat} {L : FsLayout} {s16 
   exact ⟨_, bpbOf_totalClusters o t L.fatType L.spf L.spc hb0 hf32 hfit ht (by rw [hspceq]; exact hspc0),
     bpbOf_firstDataSector o t L.fatType L.spf L.spc hb0 hf32 (by omega)⟩
 
-theorem formatBpb_not_panic {o : FormatOpts} {t : Nat} (hacc : Accepted o) (ht : t < 4294967296)
-    (hn : ¬ BpcLtBps o) : formatBpb o t ≠ .error .panic := by
+theorem formatBpb_not_panic {o : FormatOpts} {t : Nat} (hacc : Accepted o) (ht : t < 4294967296) :
+    formatBpb o t ≠ .error .panic := by
   intro h
   unfold formatBpb at h
   rcases bind_err_iff.mp h with h | ⟨L, hL, h⟩
-  · exact determineFsLayout_not_panic hacc ht hn h
+  · exact determineFsLayout_not_panic hacc ht h
   rcases bind_err_iff.mp h with h | ⟨s16, hs, h⟩
   · unfold spf16Of at h
     repeat' split at h
@@ -303,70 +298,25 @@ theorem formatBpb_not_panic {o : FormatOpts} {t : Nat} (hacc : Accepted o) (ht :
     rw [hcl, ok_bind] at h
     split at h <;> cases h
 
-theorem usableFatEntries_panic {b : FBpb} {ft : FatType} (h : usableFatEntries b ft = .error .panic) :
-    4294967296 ≤ b.sectorsPerFat * b.bps * 8 ∨ b.sectorsPerFat * b.bps * 8 / ft.bits < 2 := by
-  unfold usableFatEntries at h
-  rcases bind_err_iff.mp h with h | ⟨x, hx, h⟩
-  · have := (chkMul32_err.mp h).2; omega
-  obtain ⟨rfl, _⟩ := chkMul32_ok.mp hx
-  rcases bind_err_iff.mp h with h | ⟨y, hy, h⟩
-  · exact Or.inl (chkMul32_err.mp h).2
-  obtain ⟨rfl, _⟩ := chkMul32_ok.mp hy
-  exact Or.inr (chkSub_err.mp h).2
-
-/-- C06.1: under the builder's constraints, formatting can only panic in the two identified ways -/
-theorem formatChecked_panic {o : FormatOpts} {t : Nat} (hacc : Accepted o) (ht : t < 4294967296)
-    (h : formatChecked o t = .error .panic) : BpcLtBps o ∨ FatBitsOverflow o t := by
-  by_cases hn : BpcLtBps o
-  · exact Or.inl hn
-  right
+/-- C06.1: under the builder's constraints, formatting (`format_boot_sector` + strict `validate`) never panics -/
+theorem formatChecked_not_panic {o : FormatOpts} {t : Nat} (hacc : Accepted o) (ht : t < 4294967296) :
+    formatChecked o t ≠ .error .panic := by
+  intro h
   unfold formatChecked at h
   rcases bind_err_iff.mp h with h | ⟨⟨boot, ft⟩, hr, h⟩
   · unfold formatBootSector at h
     rcases bind_err_iff.mp h with h | ⟨_, _, h⟩
-    · exact absurd h (formatBpb_not_panic hacc ht hn)
+    · exact absurd h (formatBpb_not_panic hacc ht)
     · cases h
   · have hv : validateBoot boot = .error .panic := by
       simp only at h
       split at h
       · cases h
       · assumption
-      · rename_i e _ hne
-        cases h
-    obtain ⟨hbpb, _⟩ := formatBootSector_ok hr
-    obtain ⟨L, s16, hL, hs, hft, hb, _⟩ := formatBpb_ok hbpb
-    obtain ⟨hbeq, cl, hcl, hfds⟩ := layout_bpb_totalClusters hacc ht hL hs
-    obtain ⟨c, _, _, _, hLeq, _, hfacts, _, _⟩ := determineFsLayout_ok_facts hacc ht hL
+      · cases h
     unfold validateBoot at hv
     split at hv
     · cases hv
-    · obtain ⟨hbps, hp⟩ := validateBpb_panic hv
-      rw [hb] at hp hbps
-      have hbpsv : (mkBpb o t L s16).bps = o.bps := rfl
-      rw [hbpsv] at hbps
-      rcases hp with hp | hp | ⟨cl', hcl', hp⟩
-      · rw [hfds] at hp; cases hp
-      · rw [hcl] at hp; cases hp
-      · have hspf : (mkBpb o t L s16).sectorsPerFat = L.spf := by rw [hbeq, bpbOf_sectorsPerFat]
-        rcases usableFatEntries_panic hp with h1 | h1
-        · rw [hspf, hbpsv] at h1
-          by_cases h32 : L.fatType = .fat32
-          · exact ⟨hbps.2, L, hL, h32, h1⟩
-          · rcases spf16Of_ok hs with ⟨h2, _⟩ | ⟨_, _, h3⟩
-            · exact absurd h2 h32
-            · exfalso
-              have : L.spf * o.bps ≤ 65535 * 4096 := Nat.mul_le_mul h3 hbps.2
-              omega
-        · exfalso
-          rw [hspf, hbpsv] at h1
-          have hspf1 := hfacts.1
-          have hLs : L.spf = spfOf t o.bps (c / o.bps) L.fatType.bits (reservedFor L.fatType)
-              (determineRootDirSectors o.rootEntries o.bps L.fatType) o.fats := by rw [hLeq]
-          rw [← hLs] at hspf1
-          have h4096 : 4096 ≤ L.spf * o.bps * 8 := by
-            have : 1 * 512 ≤ L.spf * o.bps := Nat.mul_le_mul hspf1 hbps.1
-            omega
-          generalize FatType.fromClusters cl' = ft' at h1
-          cases ft' <;> simp only [FatType.bits] at h1 <;> omega
+    · exact validateBpb_not_panic _ hv
 
 end FatVerif.Format
